@@ -571,6 +571,10 @@ def interpolate_ntv2(grid_object, lat, lon, method='bicubic'):
     # ring of cells it does not fit inside the sub-grid (the reads would land in neighbouring rows,
     # the headers or the next sub-grid), so bilinear interpolation is used there
     num_rows = 1 + int(round((in_grid.n_lat - in_grid.s_lat) / in_grid.lat_inc))
+    # a position within a few ulp of the north or west limit can give row == num_rows - 1 or
+    # col == num_cols - 1 after rounding of the quotient: it belongs to the last cell
+    row = min(row, num_rows - 2)
+    col = min(col, num_cols - 2)
     if method == 'bicubic' and not (1 <= row <= num_rows - 3 and 1 <= col <= num_cols - 3):
         method = 'bilinear'
 
